@@ -573,7 +573,12 @@ class Executor:
                 res += self.eval(e.body if c else e.orelse, env, p)
             else:
                 (a, p1), (b, p2) = self.eval1(e.body, env, p), self.eval1(e.orelse, env, p)
-                res.append((ite(c, a, b), p))
+                mergeable = (a is b) or all(isinstance(v, (bool, int, float, Rec, tuple, dict, SArr, Key, type(None))) or is_z3(v) for v in (a, b))
+                if mergeable:
+                    res.append((ite(c, a, b), p))
+                else:       # e.g. a dtype / a function chosen by a symbolic test: one path per choice
+                    res.append((a, list(p) + [zbool(c)]))
+                    res.append((b, list(p) + [z3.Not(zbool(c))]))
         return res
 
     def e_ListComp(self, e, env, pc):
@@ -1026,6 +1031,10 @@ class Executor:
             for o in outs:
                 if o.kind == "raise":
                     raise PyRaise(o.value)
+            if len([o for o in outs if o.kind == "return"]) > 1:
+                # the record under construction is one object shared by all paths: field stores of one path would be
+                # seen by the other.  Not modelled: undecided (the caller may fall back on a bounded native check)
+                raise Unsupported(f"{cls}.__post_init__ takes different paths depending on a symbolic value")
         return rec
 
 
@@ -1658,7 +1667,12 @@ def lib_finfo(ex, args, kwargs, pc):
 
 def lib_take(ex, args, kwargs, pc):
     a, idx = args[0], args[1]
-    axis = kwargs.get("axis", 0)
+    axis = kwargs.get("axis", args[2] if len(args) > 2 else None)
+    if axis is None:
+        # numpy semantics: without an axis the *flattened* array is indexed
+        if len(a.shape) > 1:
+            a = flatten(ex, a)
+        axis = 0
     if axis != 0:
         raise Unsupported("take along axis != 0")
     ex.takes = getattr(ex, "takes", []) + [(a, idx)]
@@ -1735,9 +1749,22 @@ def lib_divmod(ex, args, kwargs, pc):
     return (zint(a) / zint(d), zint(a) % zint(d))
 
 
+_INT_BITS = {"jnp.int8": 8, "jnp.int16": 16, "jnp.uint8": -8, "jnp.uint16": -16, "np.int8": 8, "np.int16": 16}
+
+
 def lib_arange(ex, args, kwargs, pc):
     if len(args) == 1:
         n = args[0]
+        dt = kwargs.get("dtype")
+        name = dt.name if isinstance(dt, (ModuleRef, Builtin)) else None
+        if name in _INT_BITS:
+            # a narrow integer type wraps silently: values are taken modulo 2**bits into the type's range
+            bits = _INT_BITS[name]
+            m = 2 ** abs(bits)
+            off = m // 2 if bits > 0 else 0
+            return SArr((n,), lambda i: (zint(i) + off) % m - off, "int")
+        if name is not None and name not in ("jnp.int32", "jnp.int64", "np.int32", "np.int64", "int"):
+            raise Unsupported(f"arange with dtype {name}")
         return SArr((n,), lambda i: i, "int")
     raise Unsupported("arange(start, stop, step) (float grid: bounded stand-in)")
 
